@@ -36,6 +36,9 @@ func FromOCI(ctx context.Context, image containerregistrypkgv1.Image) (
 		if err != nil && errors.Is(err, io.EOF) {
 			break
 		}
+		if err != nil {
+			return nil, fmt.Errorf("read file header from layer: %w", err)
+		}
 
 		path, err := stripOCIPathPrefix(hdr.Name)
 		if err != nil {
